@@ -777,6 +777,17 @@ type PollCtx struct {
 	// DeadlineAt, if set, is what Deadline() reports (a context WITH a deadline that is cancelled
 	// before the deadline arrives; the harness never waits for it)
 	DeadlineAt time.Time
+	// Inner, if set, is a standard-library context created with a custom CAUSE (context.WithCancelCause): the
+	// PollCtx cancels it with that cause when it flips and answers Value() through it, so context.Cause(ctx)
+	// yields the custom cause while Err() stays the context's error
+	Inner       context.Context
+	CancelInner context.CancelCauseFunc
+}
+
+// WithCustomCause attaches a standard cancel-cause context to c.
+func (c *PollCtx) WithCustomCause() *PollCtx {
+	c.Inner, c.CancelInner = context.WithCancelCause(context.Background())
+	return c
 }
 
 func NewPollCtx(flipAt int, cause error) *PollCtx {
@@ -786,15 +797,23 @@ func NewPollCtx(flipAt int, cause error) *PollCtx {
 	return &PollCtx{FlipAt: flipAt, Cause: cause, done: make(chan struct{})}
 }
 
-func (c *PollCtx) Deadline() (time.Time, bool)       { return c.DeadlineAt, !c.DeadlineAt.IsZero() }
-func (c *PollCtx) Done() <-chan struct{}             { return c.done }
-func (c *PollCtx) Value(key interface{}) interface{} { return nil }
-func (c *PollCtx) Flipped() bool                     { return c.flipped }
+func (c *PollCtx) Deadline() (time.Time, bool) { return c.DeadlineAt, !c.DeadlineAt.IsZero() }
+func (c *PollCtx) Done() <-chan struct{}       { return c.done }
+func (c *PollCtx) Value(key interface{}) interface{} {
+	if c.Inner != nil {
+		return c.Inner.Value(key)
+	}
+	return nil
+}
+func (c *PollCtx) Flipped() bool { return c.flipped }
 
 // Cancel flips the context now.
 func (c *PollCtx) Cancel() {
 	if !c.flipped {
 		c.flipped = true
+		if c.CancelInner != nil {
+			c.CancelInner(errors.New("custom cause given to the cancel function"))
+		}
 		close(c.done)
 		if c.OnFlip != nil {
 			c.OnFlip()
